@@ -29,6 +29,11 @@ def h_detect(m, ctx, n, layout=None):
     got = directive_of(it, it.call_mir(fn, [StrV(line)]))
     want = grammar.classify(ctx, line)
     data = {'line': show_bytes(line), 'line_syms': [b if isinstance(b, int) else b[1] for b in line], 'op': 'detect_from'}
+    if got is None:
+        ctx.notes['native_check'] = {'kind': 'line', 'request': nc_tokens('detect_from', line), 'expect': nc_tokens('NONE')}
+    else:
+        ctx.notes['native_check'] = {'kind': 'line', 'request': nc_tokens('detect_from', line),
+                                     'expect': nc_tokens('SOME', got[0], got[1], got[2], '1', got[3][0])}
     if (got is None) != (want is None):
         violation(ctx, 'detect_from: directive/text classification differs from G1', dict(data, impl=repr(got), spec=repr(want)))
     if got is None:
@@ -111,6 +116,7 @@ def h_pair(m, ctx, n1, n2):
 
 
 H = 'props.c15'
+validate_samples = validate_line_samples
 
 
 def jobs(tier):
